@@ -66,7 +66,7 @@ class ScriptedPlayer:
     """One connection request + (if seated) a full conforming session."""
 
     def __init__(self, seat, team, script, style, seed, addr, version=18, overrides=None,
-                 name=None, on_verdict=None, vanish=None):
+                 name=None, on_verdict=None, vanish=None, pre_connect=None, post_connect=None):
         self.seat = seat
         self.team = team
         self.script = script            # list of {'calls': [...], 'cards': [...]} per board
@@ -78,6 +78,8 @@ class ScriptedPlayer:
         self.name = name or f'client:{seat}'
         self.on_verdict = on_verdict
         self.vanish = vanish            # (board_idx, 'call'|'card', index): close the socket there
+        self.pre_connect = pre_connect
+        self.post_connect = post_connect
         # observations
         self.sent = []                  # raw lines sent
         self.received = []              # raw lines received
@@ -174,7 +176,11 @@ class ScriptedPlayer:
     def _run(self):
         self.sock = SimSocket()
         self.reader = LineReader(self.sock)
+        if self.pre_connect is not None:
+            self.pre_connect()
         self.sock.connect(self.addr)
+        if self.post_connect is not None:
+            self.post_connect()
         # the whole request may be case-mangled except the quoted team name
         self.send(self._case('Connecting ') + f'"{self.team}"' +
                   self._case(f' as {self._name()} using protocol version ') + f'{self.version}')
